@@ -53,7 +53,7 @@
 //
 // ---- third kind of input: `cstate` ----
 // child tries through storage.TrieState and dot/state: handle 0 is a TrieState over NewEmptyTrie();
-//   p/d/c/v as above, P<k>:<c>:<key>:<value> = SetChildStorage, E<k>:<c>:<key> = ClearChildStorage
+//   p/d/c/v as above, P<k>:<c>:<key>:<value> = SetChildStorage, E<k>:<c>:<key> = ClearChildStorage, K<k>:<c> = DeleteChild
 //   (no open transaction: PutIntoChild / ClearFromChild of the in-memory trie),
 //   S<k> StoreTrie (WriteDirty writes the child tries too), T<k> TrieState(&root) -> new handle
 //   (Snapshot() of the cached trie: every child trie gets a new trie with a copy of its root),
@@ -1250,6 +1250,10 @@ func c03csRun(in string) string {
 		case 'E':
 			if err := ts.ClearChildStorage(vu.UnHex(f[1]), vu.UnHex(f[2])); err != nil {
 				return "ok:nochild"
+			}
+		case 'K':
+			if err := ts.DeleteChild(vu.UnHex(f[1])); err != nil {
+				return "err"
 			}
 		case 'S':
 			root := ts.Trie().MustHash()
